@@ -98,6 +98,24 @@ Fixpoint run_body (ops : list bop) (st : store) : outcome unit * store :=
 (* stack unwinding: destroy the temporaries that are alive *)
 Definition unwind (st : store) : outcome unit * store := destroy_all L scratch_base scratch_slots st.
 
+(* the result object a throwing body may have left half-built *)
+Definition under_construction (t : top) : list objid :=
+  match t with
+  | TFreshNRVO res _ _ | TFreshMoveAsg res _ _ => [res]
+  | _ => []
+  end.
+Fixpoint destroy_if_live (l : list objid) (st : store) : outcome unit * store :=
+  match l with
+  | [] => (Ok tt, st)
+  | o :: rest => match objs st o with
+                 | Some _ => match dtor L o st with
+                             | (Ok _, st') => destroy_if_live rest st'
+                             | r => r
+                             end
+                 | None => destroy_if_live rest st
+                 end
+  end.
+
 Definition run_top (t : top) (st : store) : outcome unit * store :=
   let '(body, thr) := expand t in
   match run_body body st with
@@ -109,10 +127,17 @@ Definition run_top (t : top) (st : store) : outcome unit * store :=
                   | r => r
                   end
       end
-  | (Throw e, st1) => match unwind st1 with
-                      | (Ok _, st2) => (Throw e, st2)
-                      | r => r
-                      end
+  | (Throw e, st1) =>
+      (* an exception from inside the body (std::bad_alloc): the temporaries AND a result object
+         under construction (NRVO local / half-built constructor result) are destroyed *)
+      match unwind st1 with
+      | (Ok _, st2) =>
+          match destroy_if_live (under_construction t) st2 with
+          | (Ok _, st3) => (Throw e, st3)
+          | r => r
+          end
+      | r => r
+      end
   | r => r
   end.
 
